@@ -165,6 +165,33 @@ def eval_graph(c, sub):
                                             'call': 'time_respecting_paths(G, %r) after each add_interaction on the same object' % (u,),
                                             'missing': repr(sorted(want - (got or set()))[:4]), 'extra': repr(sorted((got or set()) - want)[:4])}))
                     break
+    # second life: the same object is cleared and refilled with the time-mirrored graph (same number of snapshot ids at other
+    # instants); the answers must be those of the new graph
+    if 2 <= len(sub) and len(set(t for (_, _, t) in P)) >= 1:
+        lo_, hi_ = T[0], T[-1]
+        try:
+            H.clear()
+            Pm = set()
+            for (i, j, t) in sorted(chosen, key=lambda a: (-a[2], a[0], a[1])):
+                tm = lo_ + hi_ - T[t]
+                H.add_interaction(nodes[i], nodes[j], tm)
+                Pm.add((nodes[i], nodes[j], tm))
+                if not directed:
+                    Pm.add((nodes[j], nodes[i], tm))
+            mids = sorted(set(x[2] for x in Pm))
+            for u in list(H.nodes()):
+                cnt['queries'] += 1
+                want = po.brute_paths(Pm, directed, mids, u, None, None, None)
+                got = _flat(al.time_respecting_paths(H, u))
+                if got != want:
+                    viols.append(Violation(PROP, 'incremental', {'kind': 'answer-after-clear-and-refill-differs', 'cls': c['cls']},
+                                           case(['second-life', repr(u)]),
+                                           {'first life': graphs.describe(c, sub), 'then': 'clear() and the same interactions at mirrored instants',
+                                            'missing': repr(sorted(want - got)[:4]), 'extra': repr(sorted(got - want)[:4])}))
+                    break
+        except Exception as ex:
+            viols.append(Violation(PROP, 'incremental', {'kind': 'second-life-raises', 'exc': type(ex).__name__, 'cls': c['cls']}, case(['second-life']),
+                                   {'first life': graphs.describe(c, sub), 'raised': repr(ex)[:200]}))
     if len(ids) >= 2 and len(sub) >= 2:
         cnt['nontrivial_graphs'] += 1
     return viols[:6], cnt
